@@ -408,4 +408,12 @@ func init() {
 		Old:    "\t\tprocess.Body = f.continuation_e\n\n\t\tprocess.finishedRule(CLS, \"[wait, client]\", \"c\", re)",
 		New:    "\t\tprocess.Body = f\n\n\t\tprocess.finishedRule(CLS, \"[wait, client]\", \"c\", re)",
 		Expect: "(*process.WaitForm).Transition$1 | Transition:body-store"})
+	addFixture(Fixture{Name: "subscriber-served-on-a-new-goroutine", Rule: "R-MONITOR-CONFINED", File: "process/monitor.go",
+		Old:    "\t\t// Send updated structure to subscriber\n\t\tm.updateSubscriberProcesses()",
+		New:    "\t\t// Send updated structure to subscriber\n\t\tgo m.updateSubscriberProcesses()",
+		Expect: "one-owning-goroutine"})
+	addFixture(Fixture{Name: "print-into-a-shared-buffer", Rule: "R-SHARED-WRITE", File: "process/transition.go",
+		Old:    "\t\t\tfmt.Printf(\"> %s\\n\", f.label.String())\n\t\t}\n\n\t\tprocess.finishedRule(PRINT, \"[print]\", \"\", re)\n\n\t\tprocess.Body = f.continuation_e\n\t\tprocess.transitionLoop(re)",
+		New:    "\t\t\tfmt.Sscanf(f.label.String(), \"%d\", &re.Delay)\n\t\t}\n\n\t\tprocess.finishedRule(PRINT, \"[print]\", \"\", re)\n\n\t\tprocess.Body = f.continuation_e\n\t\tprocess.transitionLoop(re)",
+		Expect: "address-escapes"})
 }
